@@ -12,7 +12,17 @@ from concurrent.futures import ThreadPoolExecutor
 
 from . import build
 
-WORK = os.environ.get("VERIF_WORK", "/verif/work")
+# one scratch tree per check process, so that two checks (or two runs of one check) never share files
+WORK = os.environ.get("VERIF_WORK") or os.path.join("/verif/work", "run%d" % os.getpid())
+
+
+def _cleanup_work():
+    if "VERIF_WORK" not in os.environ:
+        shutil.rmtree(WORK, ignore_errors=True)
+
+
+import atexit  # noqa: E402
+atexit.register(_cleanup_work)
 
 ASAN_OPTS = ("abort_on_error=0:exitcode=86:detect_leaks=1:leak_check_at_exit=0:detect_stack_use_after_return=1:"
              "allocator_may_return_null=1:handle_abort=1:print_summary=1:malloc_context_size=12")
